@@ -118,7 +118,8 @@ struct Exec
   json prog;
   std::string mode, kind, vt;
   int kt, vf, nviews, nreaders;
-  double scale;
+  double scale;          // double instruments: amount n is recorded as n * scale
+  int64_t mult = 1;      // long instruments:   amount n is recorded as n * mult (c06_common.h)
   bool is_double, mono;
   int max_k = 1;
   Rng rng{1};
@@ -161,10 +162,25 @@ struct Exec
     nviews    = (int)p.at("filters").size();
     nreaders  = (int)p.at("temps").size();
     rng       = Rng((uint64_t)p.value("seed", 1));
+    int64_t total = 0;
     for (auto &op : p.at("ops"))
       if (op.at("e") == "Add")
+      {
+        total += std::llabs(op.at("v").get<long>());
         for (auto &kv : op.at("attrs"))
           max_k = std::max(max_k, kv.at(0).get<int>());
+      }
+    if (!is_double && sc != 0)
+    {
+      const int64_t huge = (int64_t(1) << 53) + 1, cap = int64_t(1) << 62;
+      total              = std::max<int64_t>(total, 1);
+      if (sc == 2)
+        mult = 3;
+      else if (total <= cap / huge)
+        mult = huge;
+      else
+        mult = (cap / total - 1) | 1;
+    }
     for (auto &f : p.at("filters"))
     {
       for (auto &k : f)
@@ -224,6 +240,19 @@ struct Exec
     }
   }
 
+  // a reader registered in the middle of the history
+  void add_reader(const std::string &t)
+  {
+    ++nreaders;
+    if (mode == "api")
+    {
+      readers.push_back(std::make_shared<PullReader>(temp_of(t)));
+      provider->AddMetricReader(readers.back());
+    }
+    else
+      collectors.push_back(std::make_shared<FixedCollector>(temp_of(t)));
+  }
+
   void create()
   {
     if (mode != "api")
@@ -243,9 +272,11 @@ struct Exec
     int h  = op.at("h").get<int>();
     long v = op.at("v").get<long>();
     CallerAttrs ca;
+    ca.rep = &rng;
     for (auto &kv : op.at("attrs"))
       ca.add(kt, vf, kv.at(0).get<int>(), kv.at(1).get<int>());
     SeqIterable it(ca.kvs);
+    const int64_t lv = (int64_t)v * mult;  // long instruments: exact in int64 (|total| * mult < 2^62)
     // hash of the filtered set, through the public FilteredOrderedAttributeMap API
     json hid = json::array();
     for (int i = 0; i < nviews; ++i)
@@ -265,7 +296,7 @@ struct Exec
       if (mono && !is_double)
       {
         auto &c = c_long.at(i);
-        shape == 0 ? c->Add((uint64_t)v) : shape == 1 ? c->Add((uint64_t)v, it) : c->Add((uint64_t)v, it, cx);
+        shape == 0 ? c->Add((uint64_t)lv) : shape == 1 ? c->Add((uint64_t)lv, it) : c->Add((uint64_t)lv, it, cx);
       }
       else if (mono)
       {
@@ -275,7 +306,7 @@ struct Exec
       else if (!is_double)
       {
         auto &c = u_long.at(i);
-        shape == 0 ? c->Add((int64_t)v) : shape == 1 ? c->Add((int64_t)v, it) : c->Add((int64_t)v, it, cx);
+        shape == 0 ? c->Add(lv) : shape == 1 ? c->Add(lv, it) : c->Add(lv, it, cx);
       }
       else
       {
@@ -288,7 +319,7 @@ struct Exec
       if (is_double)
         shape == 0 ? storage->RecordDouble(v * scale, cx) : storage->RecordDouble(v * scale, it, cx);
       else
-        shape == 0 ? storage->RecordLong(v, cx) : storage->RecordLong(v, it, cx);
+        shape == 0 ? storage->RecordLong(lv, cx) : storage->RecordLong(lv, it, cx);
     }
     ca.scribble_and_free();
     json e = {{"e", "Add"}, {"h", h}, {"attrs", op.at("attrs")}, {"v", v}, {"hid", hid}};
@@ -342,7 +373,7 @@ struct Exec
     {
       json p;
       bool ovf = false;
-      p["a"]   = abstract_attrs(pa.attributes, kt, max_k, &ovf);
+      p["a"]   = abstract_attrs(pa.attributes, kt, vf, max_k, &ovf);
       p["o"]   = ovf;
       long val = kGarbage;
       if (auto sp = nostd::get_if<sdkm::SumPointData>(&pa.point_data))
@@ -350,7 +381,11 @@ struct Exec
         if (!is_double)
         {
           if (auto iv = nostd::get_if<int64_t>(&sp->value_))
-            val = (*iv > -(1L << 30) && *iv < (1L << 30)) ? (long)*iv : kGarbage;
+          {
+            // projection: the abstract amount is V / mult when mult divides V exactly
+            int64_t q = *iv / mult;
+            val       = (*iv % mult == 0 && q > -(1L << 30) && q < (1L << 30)) ? (long)q : kGarbage;
+          }
         }
         else if (auto dv = nostd::get_if<double>(&sp->value_))
         {
@@ -427,6 +462,11 @@ struct Exec
         create();
         ++nh;
         std::cout << json({{"e", "Create"}, {"h", nh}}).dump() << "\n";
+      }
+      else if (e == "AddReader")
+      {
+        add_reader(op.at("t").get<std::string>());
+        std::cout << json({{"e", "AddReader"}, {"t", op.at("t")}}).dump() << "\n";
       }
       else if (e == "Add")
         std::cout << add(op).dump() << "\n";
